@@ -122,6 +122,34 @@ def bind_param(mod, fname, pname, ctx, kw):
         if pname == 't':
             return r.uniform(0, 1000)
         raise Unbound(pname)
+    if mod == 'dcm':
+        if pname == 'axes':
+            seq = r.choice(['zyx', 'xyz', 'zxz', 'y', 'xy', 'zy'])
+            kw['_seq_len'] = len(seq)
+            return list(seq) if r.random() < 0.6 else seq          # the docstring's own form is a list of characters
+        if pname == 'angles':
+            n = kw.get('_seq_len', 3)
+            return [r.uniform(-3, 3) for _ in range(n)] if r.random() < 0.5 else np.array([r.uniform(-3, 3) for _ in range(n)])
+        if pname == 'ax':
+            return r.choice(['x', 'y', 'z', 0, 1, 2])
+        if pname == 'ang':
+            return r.uniform(-3, 3)
+        raise Unbound(pname)
+    if mod == 'core':
+        if pname == 'data':
+            Q = ctx.quats()
+            if r.random() < 0.7:
+                Q[r.randrange(len(Q))] = np.nan
+            return Q
+        raise Unbound(pname)
+    if mod == 'geometry':
+        if pname == 'center':
+            return ctx.vec()[:2].copy() if r.random() < 0.5 else [r.uniform(-5, 5), r.uniform(-5, 5)]
+        if pname == 'phi':
+            return r.uniform(-3, 3)
+        if pname == 'axes':
+            return np.array([r.uniform(0.5, 3), r.uniform(0.5, 3)])
+        raise Unbound(pname)
     if mod == 'mathfuncs':
         if fname == 'skew':
             return ctx.vec()
@@ -194,8 +222,11 @@ def build_registry():
     import ahrs.common.mathfuncs as M
     import ahrs.utils.metrics as ME
     import ahrs.common.quaternion as QM
+    import ahrs.common.dcm as DM
+    import ahrs.utils.core as CO
+    import ahrs.common.geometry as GE
     reg = []
-    for mod, short in ((O, 'orientation'), (F, 'frames'), (M, 'mathfuncs'), (ME, 'metrics'), (QM, 'quaternion')):
+    for mod, short in ((O, 'orientation'), (F, 'frames'), (M, 'mathfuncs'), (ME, 'metrics'), (QM, 'quaternion'), (DM, 'dcm'), (CO, 'core'), (GE, 'geometry')):
         for n, f in sorted(vars(mod).items()):
             if n.startswith('_') or not inspect.isfunction(f) or f.__module__ != mod.__name__:
                 continue
@@ -283,11 +314,12 @@ def prepare(entry, ctx):
         for p in entry.params:
             if p.kind in (p.VAR_POSITIONAL, p.VAR_KEYWORD):
                 continue
-            if p.default is inspect.Parameter.empty or (p.name in ('weights',) and False):
+            if p.default is inspect.Parameter.empty or (entry.mod == 'dcm' and p.name in ('axes', 'angles', 'ax', 'ang')):
                 pos.append((p.name, bind_param(entry.mod, entry.fname, p.name, ctx, kw)))
             elif p.name in ('a', 'b') and entry.mod == 'frames':
                 continue
         many = kw.pop('_many')
+        kw.pop('_seq_len', None)
         args = [v for _, v in pos]
         if entry.kind == 'function':
             f = entry.target
@@ -331,7 +363,8 @@ def prepare(entry, ctx):
             if route == 'euler':
                 seq = r.choice(['zyx', 'xyz', 'zxz', 'y', 'xy'])
                 a = a[:len(seq)].copy()
-                return f'{entry.name}[{seq}]', (lambda: cls(euler=(seq, a))), [a], None
+                axes = list(seq) if r.random() < 0.5 else seq
+                return f'{entry.name}[{seq}]', (lambda: cls(euler=(axes, a))), [a, axes], None
             return entry.name, (lambda: cls(**{route: a})), [a], None
         if route == 'q':
             a = ctx.quat()
@@ -356,11 +389,22 @@ def prepare_filter(entry, ctx):
     q = qm.qnorm(ctx.quat(unit=True))
     if fn.endswith('.estimate') or fn == 'AQUA.init_q':
         cls = fn.split('.')[0]
-        inst = getattr(F, cls)()
+        kwc = {}
+        if cls == 'FLAE':
+            kwc['method'] = r.choice(['symbolic', 'eig', 'newton'])
+        inst = getattr(F, cls)(**kwc)
         meth = getattr(inst, fn.split('.')[1])
-        if cls == 'TRIAD':
-            return fn, (lambda: meth(a1, m1)), [a1, m1], None
-        return fn, (lambda: meth(a1, m1)), [a1, m1], None
+        call_kw = {'method': kwc['method']} if cls == 'FLAE' else {}
+        # a per-sample estimator is stateless: another, strongly inconsistent sample in between must not matter
+        a2 = ctx.vec('mag', shared_ok=False) * 0.3 + a1
+        m2 = np.cross(a1, m1) + 0.1 * m1
+
+        def disturb():
+            try:
+                meth(a2, m2, **call_kw)
+            except Exception:       # noqa: BLE001
+                pass
+        return fn + (f"[{kwc['method']}]" if kwc else ''), (lambda: meth(a1, m1, **call_kw)), [a1, m1], ('disturb', disturb)
     if fn == 'Complementary.am_estimation':
         inst = F.Complementary()
         if r.random() < 0.5:
